@@ -472,6 +472,10 @@ class ExcelInPython:
         if num_chars is None:
             # one character by default; an empty text has none to give
             num_chars = 1
+        # a count made by another function may be a whole float (ROUND gives 2.0), the empty text of another text function a blank object
+        num_chars = int(num_chars)
+        if isinstance(text, self.EmptyCell):
+            text = ''
         if num_chars < 0:
             return '#ERROR!'
         if not text:
@@ -481,6 +485,9 @@ class ExcelInPython:
         return text[0:num_chars]
 
     def _mid(self, text, start_num, num_chars):
+        start_num, num_chars = int(start_num), int(num_chars)
+        if isinstance(text, self.EmptyCell):
+            text = ''
         if start_num < 1:
             return '#NUM!'
         if num_chars < 0:
@@ -493,6 +500,9 @@ class ExcelInPython:
     @staticmethod
     def _address(row: int, col: int, *args) -> str:
         from string import ascii_uppercase
+
+        # positions made by other functions may be whole floats (ROUNDDOWN gives 3.0)
+        row, col = int(row), int(col)
 
         def get_col():
             # bijective base 26: there is no zero digit, so 26 is Z and 27 is AA
@@ -539,6 +549,9 @@ class ExcelInPython:
         if num_chars is None:
             # one character by default; an empty text has none to give
             num_chars = 1
+        num_chars = int(num_chars)
+        if isinstance(text, self.EmptyCell):
+            text = ''
         if num_chars < 0:
             return '#ERROR!'
         if not text:
@@ -725,6 +738,10 @@ class ExcelInPython:
         if len(array) == 1 and column_number is None:
             column_number = row_number
             row_number = None
+
+        # a position made by another function may be a whole float (ROUNDDOWN gives 2.0)
+        row_number = int(row_number) if row_number is not None else None
+        column_number = int(column_number) if column_number is not None else None
 
         if (row_number or 0) < 0 or (column_number or 0) < 0:
             # negative numbers must not wrap around to the end of the area
